@@ -449,6 +449,20 @@ pub fn run_c03(prog: &Prog, facts: &[Fact], scheds: &[Vec<i64>]) -> Result<RunIn
         }
         check_iso(p, &st, &base_st, &seeds, &format!("the model built by schedule {i}"), "the model built in one shot")
             .map_err(|(c, m)| (c, format!("same facts, different histories: {m}")))?;
+        // the element sets as the public iterators list them are part of "the same model"
+        for s in 0..p.sorts.len() {
+            if r.dump.roots[s].len() != base.dump.roots[s].len() {
+                return Err((
+                    "element-count-differs".into(),
+                    format!(
+                        "same facts, different histories: iter_{} yields {} elements after schedule {i} but {} after the one-shot history",
+                        p.sort_snake(s),
+                        r.dump.roots[s].len(),
+                        base.dump.roots[s].len()
+                    ),
+                ));
+            }
+        }
         info.checks += 1;
     }
     info.final_fingerprint = base.dump.hash();
